@@ -492,8 +492,13 @@ fn amend_benefit_sales(pdf_data: PdfData) -> Result<AmendBenefitsRes, Vec<SError
                 // Remove matches from leftover trades
                 let mut indexes = Vec::<usize>::with_capacity(matched_trades.len());
                 for t in matched_trades {
-                    let index =
-                        leftover_trade_confs.iter().position(|t_| t_ == t).unwrap();
+                    // Equal confirmations can occur more than once; take each
+                    // position at most once.
+                    let index = leftover_trade_confs
+                        .iter()
+                        .enumerate()
+                        .position(|(i, t_)| t_ == t && !indexes.contains(&i))
+                        .unwrap();
                     indexes.push(index);
                 }
                 // Sort reversed
